@@ -118,7 +118,9 @@ class Outcome(object):
               "assumptions": ["a crash leaves a prefix of the program-ordered writes (C18)", "ids < 2^32, offsets < 2^64",
                               "rule patterns are from Hyphe's family (test/config.py) or never-matching"],
               "wall_s": round(wall, 2), "violations": len(self.violations)}
-        with open(os.path.join(ROOT, "evidence", self.prop + ".json"), "w") as f:
+        evdir = os.environ.get("VERIF_EVIDENCE_DIR") or os.path.join(ROOT, "evidence")   # seeded runs point this elsewhere
+        os.makedirs(evdir, exist_ok=True)
+        with open(os.path.join(evdir, self.prop + ".json"), "w") as f:
             json.dump(ev, f, indent=1, sort_keys=True)
         for k in self.known:
             print("KNOWN-FINDING: property=%s %s" % (self.prop, k))
